@@ -35,6 +35,8 @@ type World struct {
 	AnnotationPhases bool
 	// Images: the scripted registry of the Package controller harness
 	Images map[string]fixture
+	// TemplateBase: the family of template variants the user's template edits of this scenario choose from
+	TemplateBase int
 }
 
 var (
@@ -469,6 +471,7 @@ func (w *World) Reset(name string) {
 	w.faultSeq = len(name) // the kind of the first injected fault varies with the scenario, deterministically
 	w.Dyn.Reset()
 	w.SetForceAdoption(false)
+	w.TemplateBase = 0
 	w.BuildControllers()
 	w.Emit(Event{Actor: "sim", Ev: "Reset", Key: "-", Args: map[string]any{"scenario": name}})
 	// the namespaces every scenario lives in
@@ -485,6 +488,18 @@ func (w *World) EnvSyncCache() {
 
 // Template variants for deployment scenarios.
 func TemplateVariant(v int) []PhaseSpec {
+	if v >= 4 {
+		// the delegated family: the same object sets, some phases handed to the ObjectSetPhase controller - a revision's
+		// local phase and another revision's delegated phase (two controllers, running concurrently) share objects
+		ps := TemplateVariant(v - 4)
+		switch v - 4 {
+		case 0, 2:
+			ps[0].Class = "default"
+		case 1:
+			ps[1].Class = "default"
+		}
+		return ps
+	}
 	switch v % 4 {
 	case 0:
 		return []PhaseSpec{
